@@ -72,6 +72,11 @@ def field_table(chk, pid, I, C, cfg, struct, p, kind, offw, term, o, cache):
         chk.ob(False, "%s/shape/%s/%s" % (pid, struct, p), "%s.%s [%s]: not a single value decoder applied to the raw field: %r" % (struct, p, cfg, term))
         return None
     leaf = leaves[0][1]
+    # the raw value that is scaled / compared with the sentinel must be the transmitted field itself
+    if (core[1], core[2]) != (off, w):
+        chk.ob(False, "%s/position/%s/%s/got=%s+%s/want=%s+%s" % (pid, struct, p, core[1], core[2], off, w),
+               "%s.%s [%s]: decoded from bits %s+%s, the field is transmitted at bits %s+%s" % (struct, p, cfg, core[1], core[2], off, w))
+        return None
     if core[0] == "sext":
         rng = IntSet.range(-(1 << (w - 1)), (1 << (w - 1)) - 1)
     else:
